@@ -454,7 +454,7 @@ int disasm_68000(
           return len;
         case OP_MOVE_QUICK:
           reg = (opcode >> 9) & 0x7;
-          snprintf(instruction, length, "%s #%d, d%d", table_68000[n].instr, opcode & 0xff, reg);
+          snprintf(instruction, length, "%s #%d, d%d", table_68000[n].instr, (int8_t)(opcode & 0xff), reg);
           return 2;
         case OP_MOVE_FROM_CCR:
           len = get_ea_68000(memory, address, ea, sizeof(ea), opcode, 0, SIZE_W);
